@@ -162,6 +162,43 @@ pub fn c06(g: &mut Gen) {
             g.group(lines);
         }
     }
+    // structures whose loaders REBUILD what is not stored: run-length vectors with more than 8 blocks (the three sample
+    // indexes have more than one sample only then), and bitvectors / sparse vectors with several select superblocks
+    for nruns in (if g.thorough { vec![300usize, 700, 3300] } else { vec![300usize, 700] }) {
+        let mut runs: Vec<(u64, u64)> = Vec::new(); let mut pos = 0u64;
+        for i in 0..nruns as u64 { let gap = 1 + g.rng.below(if i % 50 == 0 { 1 << 20 } else { 40 }); let l = 1 + g.rng.below(30); runs.push((pos + gap, l)); pos += gap + l; }
+        let len = pos + 17;
+        let calls: Vec<String> = runs.iter().map(|(a, l)| format!("s{},{}", a, l)).collect();
+        let mut lines = vec![format!("rl R build : {} l{}", calls.join(" "), len)];
+        lines.push("ser sizes R".to_string()); lines.push("ser file R".to_string());
+        lines.push("ser reload R Y extra=2".to_string());
+        lines.push("rl R eq Y".to_string());
+        let ones: u64 = runs.iter().map(|r| r.1).sum();
+        for k in 0..=40u64 {
+            let x = len * k / 40;
+            if x < len { lines.push(format!("rl Y get {}", x)); }
+            lines.push(format!("rl Y rank {}", x)); lines.push(format!("rl Y pred {}", x)); lines.push(format!("rl Y succ {}", x));
+            lines.push(format!("rl Y select {}", ones * k / 40)); lines.push(format!("rl Y select0 {}", (len - ones) * k / 40));
+        }
+        for (a, l) in runs.iter().step_by(37) { lines.push(format!("rl Y get {}", a)); lines.push(format!("rl Y get {}", a + l)); lines.push(format!("rl Y rank {}", a + l - 1)); }
+        lines.push("rl Y runs".to_string());
+        lines.push("ser seq R R".to_string());
+        g.group(lines);
+    }
+    for (size, kind) in [(20000usize, 2usize), (20000, 3), (70000, 5), (9000, 1), (9000, 0)] {
+        let bits = make_bits(g, size, kind);
+        let mut lines = vec![format!("bv B from_raw {} {}", bits.len(), words_of_bits(&bits)), "bv B enable rsz".to_string()];
+        lines.push("ser sizes B".to_string()); lines.push("ser reload B Y extra=1".to_string());
+        let ones = bits.iter().filter(|b| **b).count() as u64;
+        for k in 0..=20u64 { lines.push(format!("bv Y rank {}", size as u64 * k / 20)); lines.push(format!("bv Y select {}", ones * k / 20)); lines.push(format!("bv Y select0 {}", (size as u64 - ones) * k / 20)); }
+        let pos: Vec<String> = bits.iter().enumerate().filter(|(_, b)| **b).map(|(i, _)| i.to_string()).collect();
+        if pos.len() <= 12000 {
+            lines.push(format!("sp S build {} 0 {}", size, pos.join(" ")));
+            lines.push("ser reload S T extra=0".to_string());
+            for k in 0..=20u64 { lines.push(format!("sp T rank {}", size as u64 * k / 20)); lines.push(format!("sp T select {}", ones * k / 20)); lines.push(format!("sp T select0 {}", (size as u64 - ones) * k / 20)); }
+        }
+        g.group(lines);
+    }
     for c in [0u64, 1, 63, 64, 65, 1000] {
         g.one(format!("ser size_by_params raw {}", c));
         for w in [1u64, 13, 64] { g.one(format!("ser size_by_params iv {} {}", c, w)); }
@@ -378,6 +415,25 @@ pub fn c07(g: &mut Gen) {
             for (i, n) in names.iter().enumerate() { lines.push(format!("{} {} ser", kinds[i], n)); lines.push(format!("{} {} doc", kinds[i], n)); }
             g.group(lines);
         }
+    }
+    // structures reached through mutation histories (push / pop / set / resize / pack …): whatever the history, the bytes
+    // written must be a file of the document (unused bits zero, minimal word count, announced lengths)
+    let nh = if g.thorough { 600 } else { 120 };
+    for i in 0..nh {
+        let w = [1u64, 3, 7, 10, 13, 21, 31, 33, 47, 63, 64][i % 11];
+        let n = g.rng.range(4, 40) as usize;
+        // push-heavy prefix, then a mix with pops / shrinking resizes (the operations that must re-zero the tail)
+        let mut ops: Vec<usize> = (0..n).map(|_| if g.rng.chance(3, 4) { 0 } else { 1 }).collect();
+        for _ in 0..g.rng.range(1, 12) { ops.push(*g.rng.pick(&[2usize, 2, 2, 6, 0, 3, 5, 9])); }
+        let mut lines = crate::gen_more::iv_history(g, w, &ops, false);
+        lines.push("iv A ser".to_string()); lines.push("iv A doc".to_string());
+        g.group(lines);
+        let n = g.rng.range(3, 30) as usize;
+        let mut ops: Vec<usize> = (0..n).map(|_| if g.rng.chance(1, 4) { 0 } else { 1 }).collect();
+        for _ in 0..g.rng.range(1, 10) { ops.push(*g.rng.pick(&[3usize, 3, 3, 2, 1, 5, 7])); }
+        let mut lines = crate::gen_more::raw_history(g, &ops);
+        lines.push("raw A ser".to_string()); lines.push("raw A doc".to_string());
+        g.group(lines);
     }
     // RL: many blocks, blocks closed early, final block not full
     for n in [1usize, 40, 300] {
